@@ -63,6 +63,42 @@ def topMissing (cst : Cst) (tests : List SelfTest.Test) : List Json :=
   let tops : List String := cst.defs.filterMap fun d => match d with | .packet p => some p.name.text | _ => none
   (tops.filter fun n => !tests.any (fun t => t.pkt == n)).map Json.str
 
+/-- association lists come as JSON arrays of two-element arrays -/
+def pairsJ (j : Except String Json) : List (String × String) :=
+  match j with
+  | .ok (Json.arr a) => a.toList.filterMap fun x => match x with
+    | Json.arr #[Json.str k, Json.str v] => some (k, v)
+    | _ => none
+  | _ => []
+
+def worldJ (w : Cli.World) : Json :=
+  Json.mkObj [("exit", w.exit), ("stdout", w.stdout),
+              ("files", Json.arr ((w.files.map fun (k, v) => Json.arr #[Json.str k, Json.str v]).toArray))]
+
+/-- the wrapper model (`Cli`) run on a concrete world: `format -d / -f` and `compile` -/
+def handleCli (op : String) (req : Json) : Json :=
+  let w : Cli.World := { files := pairsJ (req.getObjVal? "files") }
+  match op with
+  | "format_world" =>
+    -- `fmt` is the library result for the one text the wrapper will see: null = syntax error
+    let out : Option String := (req.getObjValAs? String "fmt").toOption
+    worldJ (Cli.runFormat (fun _ => out) ((req.getObjValAs? String "dsl").toOption.getD "") ((req.getObjValAs? String "file").toOption.getD "") w)
+  | "export_world" =>
+    Json.mkObj [("result", Cli.exportFormat (fun _ => (req.getObjValAs? String "fmt").toOption) "")]
+  | "args_world" =>
+    let args := match req.getObjVal? "args" with | .ok (Json.arr a) => a.toList.filterMap (·.getStr?.toOption) | _ => []
+    Json.mkObj [("args", Json.arr ((Cli.rewriteArgs args).map Json.str).toArray)]
+  | _ =>
+    let diags := match req.getObjVal? "diags" with | .ok (Json.arr a) => a.toList.filterMap (·.getStr?.toOption) | _ => []
+    let targets : List Cli.Target := match req.getObjVal? "targets" with
+      | .ok (Json.arr a) => a.toList.map fun t =>
+        { lang := (t.getObjValAs? String "lang").toOption.getD "", path := (t.getObjValAs? String "path").toOption.getD "",
+          gen := match t.getObjValAs? String "error" with
+            | .ok e => .error e
+            | .error _ => .ok (pairsJ (t.getObjVal? "files")) }
+      | _ => []
+    worldJ (Cli.runCompile diags targets w)
+
 def handle (req : Json) : Json :=
   let op := (req.getObjValAs? String "op").toOption.getD ""
   let text := (req.getObjValAs? String "text").toOption.getD ""
@@ -202,6 +238,7 @@ def handle (req : Json) : Json :=
                 | some vs => tryMessage S P p.name vs
                 | none => acc) acc) []
             Json.mkObj (("tried", ((pk.length * n : Nat) : Json)) :: res)
+  | "format_world" | "export_world" | "args_world" | "compile_world" => handleCli op req
   | _ => Json.mkObj [("error", "unknown op")]
 
 partial def loop (hin hout : IO.FS.Stream) : IO Unit := do
